@@ -12,6 +12,9 @@ returns a shape tag and a message.
                                      identified by (batch, position); priority order is
                                      the lexicographic order on those)
   rank-order / rank-pick             the job goes to a free worker of minimal score
+  worse-ranked-peer-preferred        … also when that worker is free by the dispatcher's bookkeeping but momentarily
+                                     not receiving on its job channel while a worse-ranked one is: the dispatcher
+                                     waits for the best-ranked free worker (or its exit)
   hard-timeout-ignored               a result processed after the hard deadline ends the batch
   idle-timeout-despite-progress      an idle timeout only a full ProgressTimeout after the last successful result
   request-never-issued-with-peer-available
@@ -38,6 +41,8 @@ inductive Obs where
   | progBatch (b : Nat)                       -- batch b was submitted with a ProgressTimeout
   | wake (b g : Nat)                          -- the idle timer armed for b's g-th idle window fired (window 1 starts at
                                               -- submission, window k+1 at the k-th successful result of the batch)
+  | notReceiving (ps : List Nat)              -- during the offer that follows, these free workers are not (yet) receiving
+                                              -- on their job channels; every other free worker is parked at its channel
 deriving Repr
 
 structure OSt where
@@ -54,6 +59,7 @@ structure OSt where
   conn      : List Nat := []          -- addresses of the peers that are connected (their worker has not exited)
   prog      : List Nat := []          -- batches with a ProgressTimeout
   lastWake  : Option (Nat × Nat) := none
+  notRecv   : List Nat := []          -- free workers that are momentarily not receiving during the current offer
 deriving Repr
 
 def reqLt (a b : Req) : Bool := a.1 < b.1 || (a.1 == b.1 && a.2 < b.2)
@@ -77,6 +83,7 @@ def obsStep (o : OSt) : Obs → OSt × List Fail
               queued := if o.quit then o.queued else o.queued ++ rangeReqs b n }, [])
   | .progBatch b => ({ o with prog := b :: o.prog }, [])
   | .wake b g => ({ o with lastWake := some (b, g) }, [])
+  | .notReceiving ps => ({ o with notRecv := ps }, [])
   | .verdict b v =>
     -- "a batch fails with an idle timeout only if no request finished within the window": in the driver's clock
     -- the timer of window g fires a full ProgressTimeout after window g began and the current window's own timer
@@ -99,7 +106,7 @@ def obsStep (o : OSt) : Obs → OSt × List Fail
   | .order l =>
     let f : List Fail := if nondecreasing (l.map (·.2.1)) then [] else
       [("rank-order", "free workers were not ordered by score")]
-    ({ o with lastOrder := l }, f)
+    ({ o with lastOrder := l, notRecv := [] }, f)
   | .exited p =>
     ({ o with lastOrder := o.lastOrder.map (fun x => if x.1 == p then (x.1, x.2.1, false) else x),
               conn := o.conn.filter (fun x => !(x == p)),
@@ -134,12 +141,21 @@ def obsStep (o : OSt) : Obs → OSt × List Fail
     let f3 : List Fail :=
       match live.find? (fun x => x.1 == p) with
       | none => [("rank-pick", s!"job given to worker {p} which was not among the free workers")]
-      | some (_, sc, _) => if live.all (fun x => decide (sc ≤ x.2.1)) then [] else
-          [("rank-pick", s!"job given to worker {p} (score {sc}) although a better-ranked worker was free")]
+      | some (_, sc, _) =>
+        -- "preferring peers with a better record": the job goes to a free worker of minimal score among ALL
+        -- free workers.  A better-ranked free worker that is momentarily not at its job channel is still the one
+        -- the request is due to: the dispatcher waits for it (or for its exit)
+        match live.find? (fun x => decide (x.2.1 < sc)) with
+        | none => []
+        | some (q, sq, _) =>
+          if o.notRecv.contains q then
+            [("worse-ranked-peer-preferred", s!"job given to worker {p} (score {sc}) because the better-ranked free worker {q} (score {sq}) was momentarily not receiving on its job channel; the dispatcher must wait for the best-ranked free worker or its exit")]
+          else
+            [("rank-pick", s!"job given to worker {p} (score {sc}) although a better-ranked worker was free")]
     ({ o with idxOf := if o.idxOf.any (fun x => x.1 == r) then o.idxOf else (r, idx) :: o.idxOf,
               queued := o.queued.filter (fun q => !(q == r)),
               held := (p, idx, r) :: o.held.filter (fun x => !(x.1 == p)),
-              lastOrder := o.lastOrder.filter (fun x => !(x.1 == p)) }, f1 ++ f2 ++ f3)
+              lastOrder := o.lastOrder.filter (fun x => !(x.1 == p)), notRecv := [] }, f1 ++ f2 ++ f3)
   | .result p idx e =>
     match o.held.find? (fun x => x.1 == p) with
     | none => (o, [("result-unknown", s!"worker {p} reported without holding a job")])
